@@ -11,6 +11,10 @@ for f in sorted(glob.glob('/verif/seeded/*/meta.json')):
     if len(summ) > 230:
         summ = summ[:227] + "…"
     rows.append("| %s | %s | %s | %s |" % (name, files, summ, verdict))
+import sys, io
+_buf = io.StringIO()
+_real = sys.stdout
+sys.stdout = _buf
 print("| seeded change | files | what it does | verdict of our checks (quick tier, seed 1) |")
 print("|---|---|---|---|")
 print("\n".join(rows))
@@ -19,3 +23,14 @@ conc = sum(1 for r in rows if "concrete replay" in r)
 noin = sum(1 for r in rows if "no-failing-input-found" in r and "concrete replay" not in r)
 miss = tot - conc - noin
 print("\n%d seeded changes confirmed (each compiles, passes the pinned suite, and its demonstration fails with it and passes without): %d reported with a concrete replay, %d reported through a broken tie/correspondence only (no-failing-input-found), %d not detected." % (tot, conc, noin, miss))
+
+sys.stdout = _real
+text = _buf.getvalue()
+if len(sys.argv) > 1 and sys.argv[1] == "--splice":   # SPLICE into DESIGN.md between the markers
+    d = open('/verif/DESIGN.md').read()
+    a, b = '<!-- CATCH-TABLE-BEGIN -->', '<!-- CATCH-TABLE-END -->'
+    i, j = d.index(a) + len(a), d.index(b)
+    open('/verif/DESIGN.md', 'w').write(d[:i] + "\n" + text + d[j:])
+    print("DESIGN.md appendix E updated")
+else:
+    print(text)
